@@ -1801,7 +1801,7 @@ func checkDisk(d *disk) error {
 	return nil
 }
 
-const rule = "every sequence of exactly L operations (all shorter ones are its prefixes, judged step by step) over an alphabet {AddClass/AddInterface/AddFunc of a stub, LoadAndRun, ParseFile, GetOrLoadClass, GetOrLoadInterface, LoadPkg, discard} x {base, TempVM 0, TempVM 1} x colliding names/files, TempVM slots up to renaming; the same for the script routes — a generated script run on the VM through LoadAndRun: eval() of a declaration unit, include/include_once/require/require_once (absolute and relative path, existing and missing file), a function statement executed at run time (nested in a function, conditional, nested in a method), spl_autoload_register of a callback that includes a file, a class needed at run time (new, new $name) or at parse time (extends, trait use), define(), class_alias, scripts that define nothing (anonymous class, closure, arrow fn, run_php_file) — together with the API operations they interact with; plus seeded sequences of 5..40 operations over 1 base + 4 TempVMs, 8 colliding names (2 case-variant pairs; each name used as class, interface and function), 11 files (one missing; two names reachable only through autoload callbacks), all API operations and all script routes in every spelling; after every operation the resolve tables of all VMs (3 kinds x pool lookups each, identified by which definition answers), the call result, the ThrowControl count and the constants are compared with the Lean model and the tables judged by the snapshot/bookkeeping oracle. The routes of the known finding (GetOrLoadInterface/LoadPkg through a TempVM for a name the base's autoloader can try) run in a separate stream; every declaration form (class, abstract, final, trait, enum, interface, attribute) through every parsing route in an oracle-only stream. non-trivial = a definition through a TempVM and an operation on another VM; distinct = distinct operation sequence"
+const rule = "every sequence of exactly L operations (all shorter ones are its prefixes, judged step by step) over an alphabet {AddClass/AddInterface/AddFunc of a stub, LoadAndRun, ParseFile, GetOrLoadClass, GetOrLoadInterface, LoadPkg, discard} x {base, TempVM 0, TempVM 1} x colliding names/files, TempVM slots up to renaming; the same for the script routes — a generated script run on the VM through LoadAndRun: eval() of a declaration unit, include/include_once/require/require_once (absolute and relative path, existing and missing file), a function statement executed at run time (nested in a function, conditional, nested in a method), spl_autoload_register of a callback that includes a file, a class needed at run time (new, new $name) or at parse time (extends, trait use), define(), class_alias, scripts that define nothing (anonymous class, closure, arrow fn, run_php_file) — together with the API operations they interact with; plus seeded sequences of 5..40 operations over 1 base + 4 TempVMs, 8 colliding names (2 case-variant pairs; each name used as class, interface and function), 11 files (one missing; two names reachable only through autoload callbacks), all API operations and all script routes in every spelling; after every operation the resolve tables of all VMs (3 kinds x pool lookups each, identified by which definition answers), the call result, the ThrowControl count and the constants are compared with the Lean model and the tables judged by the snapshot/bookkeeping oracle. The routes of the known finding (GetOrLoadInterface/LoadPkg through a TempVM for a name the base's autoloader can try) run in a separate stream; every declaration form (class, abstract, final, trait, enum, interface, attribute) through every parsing route in an oracle-only stream; code parsed ONCE on the base VM (function / static-method bodies with function declarations — plain, function_exists-guarded, nested, two in a row —, class / interface statements, and call / function_exists / new uses) executed through base, TempVM 0, TempVM 1 in every order, with AddFunc / AddClass stubs and discard, judged by noninterference against purged twins (what VM v resolves and what its scripts print after a history must equal what it resolves / prints after only its own and the base's operations in a fresh world). non-trivial = a definition through a TempVM and an operation on another VM; distinct = distinct operation sequence"
 
 func workers(c *vh.Ctx) int {
 	w := goruntime.NumCPU() / 2
@@ -1988,6 +1988,20 @@ func runShard(c *vh.Ctx, shard, nshards int) {
 			r.runScript(sc)
 			return
 		}
+		if cs.Stream == "shared" {
+			var sc sharedCase
+			json.Unmarshal(c.ReplayRaw, &sc)
+			if sc.NT == 0 {
+				sc.NT = 2
+			}
+			for _, o := range sc.Ops {
+				if o.B < 0 || o.B >= len(sharedBodies) || o.V >= sc.NT {
+					return
+				}
+			}
+			r.runSharedCase(sc)
+			return
+		}
 		if cs.Stream == "flavour" {
 			var fc flavourCase
 			json.Unmarshal(c.ReplayRaw, &fc)
@@ -2018,6 +2032,10 @@ func runShard(c *vh.Ctx, shard, nshards int) {
 		return
 	}
 	c.Res.Rule = rule
+	if os.Getenv("C12_ONLY") == "shared" { // development aid: the shared-body stream alone
+		c.Res.ExhaustiveWhat = r.sharedStream()
+		return
+	}
 
 	// ---- committed corpus first (minimised past failures and hand-picked sequences)
 	if shard == 0 {
@@ -2078,6 +2096,9 @@ func runShard(c *vh.Ctx, shard, nshards int) {
 	if shard == 0 {
 		r.flavourStream()
 	}
+
+	// ---- code parsed once on the base, executed through several VMs (purge-twin oracle)
+	c.Res.ExhaustiveWhat += r.sharedStream()
 
 	// ---- known stream
 	r.knownStream()
